@@ -18,11 +18,17 @@ batches of 0..9. Monitors decide, per layer and per trial:
   order-preserving normalisation; `<name>_before_noise` == un-noised value);
 * infeasibility marks are not lost on the way up;
 * `problem_statement()` is returned by value (identity probe at build time and a
-  destructive mutation probe at the end);
+  destructive mutation probe at the end), and it is held by value on the way in: the
+  harness keeps the ProblemStatement / SearchSpace objects it passed to constructors
+  (NumpyExperimenter, MultiObjectiveNumpyExperimenter, SparseExperimenter), goes on
+  modifying them at the end of the case, and the existing experimenter must report
+  the same statement and evaluate the same suggestions to the same outcome;
 * base objectives equal a reference computed without the experimenter plumbing;
 * noisy trees whose noise wrappers all carry a seed reproduce the same sequence;
 * deterministic trees give the same outcome in a batch and one by one;
-* the experimenter factory equals the hand-built composition it documents.
+* the experimenter factory equals the hand-built composition it documents; one
+  factory object asked twice, and an equal factory, give experimenters that answer
+  the same (interleaved) sequence of suggestions identically (seeded noise included).
 """
 import copy
 import json
@@ -41,7 +47,11 @@ RULE = ('trees = base (24 BBOB functions dims 2..5 incl. non-default bounds/scal
         'multi-objective factories) + 1..3 wrappers out of {shift, signflip, permute, '
         'discretize(grid|explicit), hypercube, normalize, noisy(10 types), sparse, '
         'switch, hashing-infeasible, region-infeasible} with valid arguments, plus the '
-        'SingleObjectiveExperimenterFactory against its hand-built equivalent; every '
+        'SingleObjectiveExperimenterFactory against its hand-built equivalent (one factory '
+        'object called twice plus an equal factory, batches interleaved between the three '
+        'experimenters); BBOB and DTLZ/ZDT/WFG bases are built both through their factories '
+        'and directly from a statement object the harness owns, which (like the search space '
+        'given to SparseExperimenter) is modified by its creator at the end of the case; every '
         'layer gets its own batch (0..9 points, boundary biased) from its own search '
         'space. A case is one tree; non-trivial when at least one wrapper relation was '
         'decided on a completed trial; distinct = hash of (base kind/function/dim, '
@@ -68,6 +78,14 @@ ASSUMPTIONS = [
     'layers found to return their statement by reference (identity probe) are reported '
     'and then shielded by the recorder (deep copy) so that the remaining monitors of '
     'the tree judge the other layers, not the downstream damage of that defect',
+    'creator-mutation probe: only ProblemStatement / SearchSpace constructor arguments are '
+    'modified after construction (the property speaks of the problem statement); arrays, '
+    'dicts and lists given to shift / discretize / permute are left alone. Outcomes before '
+    'and after are compared exactly for subtrees without random noise, by status and metric '
+    'names otherwise. The probe is skipped in a case that already raised a violation',
+    'factory called twice: the two experimenters are required to answer identically; their '
+    'being one shared object is only recorded in the mechanism id, a difference in behaviour '
+    'decides (all generated factory noise carries a noise_seed, all permutations a seed)',
     'base references: BBOB / optproblems functions called directly on the raw array; '
     'Branin and Hartmann re-implemented from the published formulae (1e-10 relative)',
 ]
@@ -80,6 +98,9 @@ REQUIRED_COUNTERS = (
        'permute_bijections_checked', 'noisy_repro_sequences', 'xproc_noise_sequences_compared',
        'normalize_order_pairs', 'batch_vs_single_checked',
        'infeasible_trials_seen', 'factory_differential_checked',
+       'factory_repeat_call_checked', 'factory_repeat_call_seeded_noise_checked',
+       'creator_mutation_probes', 'creator_mutation_probes:bbob',
+       'creator_mutation_probes:multiobjective', 'creator_mutation_probes:sparse',
        'space_expectations_checked', 'clipped_shift_points'])
 MIN_DISTINCT = {'quick': 800, 'thorough': 8000}
 
@@ -160,6 +181,7 @@ def build_tree(m, desc):
 
 def build_node(m, kind, args, children):
   node = L.Node(kind, args, children)
+  del L.OWNED[:]
   try:
     if node.is_base:
       node.exp = L.make_base(kind, args)
@@ -187,6 +209,7 @@ def build_node(m, kind, args, children):
                   f'constructing {kind} with valid arguments raised {type(e).__name__}: {e}'[:300],
                   {'args': args})
     return None
+  node.owned = list(L.OWNED)   # mutable constructor arguments the creator (this harness) keeps
   node.rec = L.Recorder(node.exp, kind)
   for c in node.walk():
     c.rec.log = []
@@ -273,7 +296,8 @@ def gen_base(rng, single_objective=False):
     r = r * 0.73
   if r < 0.38:
     return {'kind': 'bbob', 'args': {'fn': rng.choice(L.BBOB_FNS), 'dim': rng.randint(2, 5),
-                                     'seed': rng.choice([0, 0, 1, 7]), 'lo': None}, 'children': []}
+                                     'seed': rng.choice([0, 0, 1, 7]), 'lo': None,
+                                     'direct': rng.random() < 0.3}, 'children': []}
   if r < 0.46:
     lo, hi, sc = rng.choice([(0.5, 8.0, 'LOG'), (0.5, 8.0, None), (1.0, 100.0, 'LOG'),
                              (-2.0, 3.0, None), (0.25, 4.0, 'REVERSE_LOG'), (0.0, 1.0, None)])
@@ -298,14 +322,17 @@ def gen_base(rng, single_objective=False):
   if r < 0.81:
     nobj = rng.choice([2, 2, 3])
     return {'kind': 'dtlz', 'args': {'name': f'DTLZ{rng.randint(1, 7)}', 'nobj': nobj,
-                                     'dim': nobj + rng.randint(1, 3)}, 'children': []}
+                                     'dim': nobj + rng.randint(1, 3),
+                                     'direct': rng.random() < 0.4}, 'children': []}
   if r < 0.87:
     return {'kind': 'zdt', 'args': {'name': rng.choice(['ZDT1', 'ZDT2', 'ZDT3', 'ZDT4', 'ZDT6']),
-                                    'dim': rng.randint(2, 5)}, 'children': []}
+                                    'dim': rng.randint(2, 5), 'direct': rng.random() < 0.4},
+            'children': []}
   if r < 0.92:
     nobj = rng.choice([2, 2, 3])
     return {'kind': 'wfg', 'args': {'name': f'WFG{rng.randint(1, 9)}', 'nobj': nobj,
-                                    'dim': nobj - 1 + 2 * rng.randint(1, 2)}, 'children': []}
+                                    'dim': nobj - 1 + 2 * rng.randint(1, 2),
+                                    'direct': rng.random() < 0.4}, 'children': []}
   n = rng.choice([2, 2, 3])
   return {'kind': 'combined', 'args': {
       'fns': {f'm{i}': [rng.choice(L.BBOB_FNS), rng.choice([0, 0, 5])] for i in range(n)},
@@ -1060,6 +1087,68 @@ def check_by_value(m, root):
       return   # the tree is corrupted from here on
 
 
+def mutate_owned(label, obj):
+  """The creator goes on using the object it had passed to a constructor."""
+  from vizier import pyvizier as vz
+  if label == 'problem_statement':
+    mutate_statement(obj)
+    list(obj.metric_information)[0].name = 'c20_creator_renamed'
+  else:   # a vz.SearchSpace
+    obj.root.add_float_param('c20_creator_probe', 0.0, 1.0)
+    obj.root.add_categorical_param('c20_creator_probe_cat', ['u', 'v'])
+
+
+def check_creator_aliasing(m, root, prng, broken):
+  """`by value` on the way in: what the creator does to the statement / search space
+  object it passed to a constructor, after the constructor returned, must not reach
+  the experimenter (its statement, the metrics it completes trials with, its values)."""
+  for node in list(root.walk())[::-1]:   # leaves first
+    if not node.owned or node.state.get('byref') or any(id(n) in broken for n in node.walk()):
+      continue
+    fp = L.fingerprint(node.exp.problem_statement())
+    pts = sample_points(prng, node, 2)
+    before = [mk_trial(p) for p in pts]
+    try:
+      node.exp.evaluate(before)
+      for label, obj in node.owned:
+        mutate_owned(label, obj)
+    except Exception:  # pylint: disable=broad-except
+      m.count('creator_mutation_failed')
+      continue
+    m.count('creator_mutation_probes')
+    m.count('creator_mutation_probes:' + ('multiobjective' if node.kind in ('dtlz', 'zdt', 'wfg') else node.kind))
+    labels = sorted({label for label, _ in node.owned})
+    fp2 = L.fingerprint(node.exp.problem_statement())
+    if fp2 != fp:
+      m.violation(f'ps-aliases-constructor-argument:{node.kind}',
+                  f'{node.kind}: the creator modified the {"/".join(labels)} object it had passed to the '
+                  'constructor and problem_statement() of the existing experimenter changed '
+                  '(the statement is not held by value)',
+                  {'probe': 'creator-mutation', 'metrics_before': fp[1], 'metrics_after': fp2[1],
+                   'space_before': fp[0][:400], 'space_after': fp2[0][:400]})
+      return   # the tree is corrupted from here on
+    after = [mk_trial(p) for p in pts]
+    try:
+      node.exp.evaluate(after)
+    except Exception as e:  # pylint: disable=broad-except
+      m.violation(f'evaluate-aliases-constructor-argument:{node.kind}:raised',
+                  f'{node.kind}: evaluate raised {type(e).__name__} after the creator modified the '
+                  f'{"/".join(labels)} object it had passed to the constructor: {e}'[:300], {'points': pts})
+      return
+    deterministic = not node.has_random_noise()
+    for p, t0, t1 in zip(pts, before, after):
+      o0, o1 = L.snap_outcome(t0), L.snap_outcome(t1)
+      same = L.outcome_same(o0, o1) if deterministic else (
+          o0['completed'] == o1['completed'] and o0['infeasible'] == o1['infeasible']
+          and set(o0['metrics'] or {}) == set(o1['metrics'] or {}))
+      if not same or not L.params_equal(p, L.snap_params(t1)):
+        m.violation(f'evaluate-aliases-constructor-argument:{node.kind}',
+                    f'{node.kind}: the same suggestion is evaluated differently after the creator modified '
+                    f'the {"/".join(labels)} object it had passed to the constructor',
+                    {'params': p, 'before': o0, 'after': o1, 'params_after': L.snap_params(t1)})
+        return
+
+
 def check_signflip_involution(m, root, prng, broken):
   from vizier._src.benchmarks.experimenters import sign_flip_experimenter as sf
   for node in root.walk():
@@ -1206,11 +1295,11 @@ def tree_abstraction(desc):
     if k == 'signflip':
       return a['objectives_only']
     if k == 'bbob':
-      return (a['fn'], a['dim'], a.get('lo'), a.get('scale'))
+      return (a['fn'], a['dim'], a.get('lo'), a.get('scale'), bool(a.get('direct')))
     if k == 'simplekd':
       return (a['best'], a['nf'], a['nd'], a['ni'], a['rel'])
     if k in ('dtlz', 'zdt', 'wfg'):
-      return (a['name'], a['dim'], a.get('nobj'))
+      return (a['name'], a['dim'], a.get('nobj'), bool(a.get('direct')))
     if k == 'combined':
       return (sorted(v[0] for v in a['fns'].values()), a['dim'])
     if k == 'hartmann':
@@ -1262,6 +1351,9 @@ def run_case(ctx, desc, pseed, index, tier='quick'):
   else:
     ctx.count('trees_with_broken_layer')
   check_by_value(m, root)
+  if not m.raised:
+    # last: the probe is destructive for the objects this case created
+    check_creator_aliasing(m, root, prng, broken)
   ctx.case(tree_abstraction(desc), nontrivial=m.relations > 0)
   if index < 2 * ctx.nshards:
     ctx.sample({'tree': [n.kind for n in nodes], 'relations': m.relations})
@@ -1348,7 +1440,10 @@ def run_factory_case(ctx, a, pseed, index):
     ctx.case(['factory', tree_abstraction(desc)], nontrivial=False)
     return
   try:
-    f1, f2 = factory_from(a)(), factory_from(a)()
+    # one factory object asked twice (every call documents a new experimenter of its
+    # own) and an equal factory built separately
+    fac = factory_from(a)
+    f1, f2, f3 = fac(), fac(), factory_from(a)()
   except Exception as e:  # pylint: disable=broad-except
     origin = getattr(e, 'c20_origin', None)
     if origin:
@@ -1368,7 +1463,7 @@ def run_factory_case(ctx, a, pseed, index):
   for _ in range(3):
     pts = sample_points(prng, manual, prng.choice([1, 2, 4, 6]))
     outs = []
-    for e in (manual.exp, f1, f2):
+    for e in (manual.exp, f1, f2, f3):
       trials = [mk_trial(p) for p in pts]
       try:
         e.evaluate(trials)
@@ -1384,11 +1479,28 @@ def run_factory_case(ctx, a, pseed, index):
         if not L.params_equal(p, L.snap_params(t)):
           m.violation('params-changed:factory', 'factory experimenter changed trial parameters',
                       {'before': p, 'after': L.snap_params(t)})
-    for p, om, o1, o2 in zip(pts, *outs):
+    random_noise = a['noise_type'] is not None and a['noise_type'].upper() != 'NO_NOISE'
+    for p, om, o1, o2, o3 in zip(pts, *outs):
       ctx.count('factory_differential_checked')
+      ctx.count('factory_repeat_call_checked')
+      if random_noise:
+        ctx.count('factory_repeat_call_seeded_noise_checked')
       if not L.outcome_same(o1, o2):
-        m.violation('factory-not-deterministic', 'two calls of the same factory give different experimenters',
-                    {'params': p, 'first': o1, 'second': o2})
+        # the experimenters of one factory answer the same sequence of suggestions
+        # differently: they are not independent of each other (shared object / shared
+        # random stream) or the factory is not a function of its configuration
+        shape = ':same-object' if f1 is f2 else ''
+        shape += ':seeded-noise' if random_noise else ''
+        m.violation(f'factory-repeat-call-differs{shape}',
+                    'two experimenters obtained from the same factory object answer the same sequence of '
+                    'suggestions differently' + (' (noise_seed given: seeded noise is not reproducible)'
+                                                 if random_noise else ''),
+                    {'params': p, 'first': o1, 'second': o2, 'same_object': f1 is f2,
+                     'noise_type': a['noise_type'], 'noise_seed': a['noise_seed']})
+        return
+      if not L.outcome_same(o1, o3):
+        m.violation('factory-not-deterministic', 'two equal factories give different experimenters',
+                    {'params': p, 'first': o1, 'second': o3})
         return
       if not L.outcome_same(om, o1):
         m.violation('factory-differs:values', 'factory experimenter differs from the documented composition',
